@@ -609,6 +609,11 @@ func (p *Parser) Release() {
 	p.currentToken = token.Token{}
 	p.depth = 0
 	p.ctx = nil
+	// Position mapping and options belong to the parse / holder that is being
+	// released: leave nothing behind, exactly like Reset.
+	p.positions = nil
+	p.strict = false
+	p.dialect = ""
 }
 
 // parseStatement parses a single SQL statement using O(1) Type-based dispatch.
